@@ -96,6 +96,7 @@ CONSTANTS Modes,         \* subset of {"tags", "numbers", "lists", "shape"}
           MaxSubsub1,    \* "shape": sub-subsections in a single-subsection section
           SessEnvs,      \* client sessions: on "shape" objects of these environments ...
           SessMaxSubs,   \* ... with at most this many subsections (0: no sessions)
+          SessMaxTotal,  \* ... and at most this many sub-subsections in all
           MaxCalls,      \* length of the "free" sessions (population: FreeOK)
           FreeEnvs,      \* ... in these environments
           FreeMaxSubsub  \* "free" sessions on sub-subsection objects: only when the subsection has at most this many of them
@@ -424,7 +425,9 @@ Script(t, disc) ==
             \o <<Letter("all", 0), Letter("take", 2), Letter("list", 0), Letter("open", 0), Letter("take", 1), Letter("num", 0)>>
             \o steps(n + 1)
             \o Flat([i \in 1..Len(fp) |-> <<Letter("filt", fp[Len(fp) + 1 - i])>>]) \o <<Letter("all", 0)>>
-SessOK(t) == Mode = "shape" /\ env \in SessEnvs /\ Len(obj) <= SessMaxSubs
+RECURSIVE SumLens(_)
+SumLens(o) == IF o = <<>> THEN 0 ELSE Len(Head(o).subsubs) + SumLens(Tail(o))
+SessOK(t) == Mode = "shape" /\ env \in SessEnvs /\ Len(obj) <= SessMaxSubs /\ SumLens(obj) <= SessMaxTotal
 \* "free" sessions: the section of two-subsection objects with one sub-subsection each; the subsection of single-subsection
 \* objects; their sub-subsections when there are at most FreeMaxSubsub
 FreeOK(t) == /\ Mode = "shape" /\ MaxCalls > 0 /\ env \in FreeEnvs
